@@ -125,7 +125,7 @@ class TTNO(TTNBase):
         if not basis.dummy_ttno:
             dummy_nodes = []
             for node in basis.node_list:
-                node = TreeNodeBasis([BasisDummy((id(node), "dummy"))])
+                node = TreeNodeBasis([BasisDummy((id(node), "dummy"), sigmaqn=[[0] * basis.qn_size])])
                 dummy_nodes.append(node)
             copy_connection(basis.node_list, dummy_nodes)
             new_basis = BasisTree(dummy_nodes[0])
